@@ -124,13 +124,16 @@ theorem fstep_path (now : Time) (d : Dev) (i : FA) (o : Oracle) (f : F)
           rw [hfs] at hs; simp at hs
         | some t =>
           have hfs : fstep now d i o f =
-              ⟨{ d with toBuf := d.toBuf ++ t }, i, o, [Out.sent t] ++ (if i.telemetry then teleMem i.clientId "send(dev): '" t else []),
+              ⟨{ d with toBuf := clipTo (d.toBuf ++ t) }, i, o, [Out.sent t] ++ sendTele d i.telemetry i.clientId t,
                if (d.toBuf ++ t).isEmpty then ⟨r, false⟩ else ⟨f.rem, true⟩,
-               classify ([Out.sent t] ++ (if i.telemetry then teleMem i.clientId "send(dev): '" t else [])) (d.toBuf ++ t).isEmpty⟩ := by
+               classify ([Out.sent t] ++ sendTele d i.telemetry i.clientId t) (d.toBuf ++ t).isEmpty⟩ := by
             unfold fstep; simp only [hrem, hin', Bool.not_false, ↓reduceIte]
           rw [hfs]
-          have hsents : sents ([Out.sent t] ++ (if i.telemetry then teleMem i.clientId "send(dev): '" t else [])) = [t] := by
-            split <;> simp [sents, sents_teleMem]
+          have hsents : sents ([Out.sent t] ++ sendTele d i.telemetry i.clientId t) = [t] := by
+            unfold sendTele
+            split
+            · simp [sents]
+            · split <;> simp [sents, sents_teleMem]
           simp only [hsents]
           intro h
           have goal : PathF f ([t] ++ ss) = Path (.send (some t) :: r) (t :: ss) := by
